@@ -149,12 +149,18 @@ def run_mode(ctx, mode):
             "the model coq/C01/{Layout,State,Model}.v is a hand-written restatement of signal_layout.go, message.go, "
             "signal.go, signal_enum.go, mux_signal.go; tied to the code by the step-by-step comparison above; Go int "
             "modelled as unbounded Z (indexes < 2^62, sizes <= 64); unique entity names; enum values never shared "
-            "between enums; messages without sender interface",
+            "between enums; nodes / interfaces / buses are outside the model: the size limit of the bus of a sent message "
+            "(CAN 2.0A, 8 bytes) is an input of the operation OResizeBus, supplied by the harness from the real attachment; "
+            "Signal.UpdateName with a fresh name is the identity of the model (name tables are sets of handles)",
         ],
     })
     ctx.assumptions = [
         "every signal / message / enum value has a unique name (name registries are modelled as handle sets)",
-        "an enum value is added to at most one enum; messages are not attached to a bus (no CAN 2.0A size limit)",
+        "an enum value is added to at most one enum; a message is either stand-alone or sent by the one node interface of one "
+        "CAN 2.0A bus from its creation on (no attaching / detaching of messages, no bus type changes: C04-C06)",
+        "the name table of a multiplexer is observed through the names it refuses (a never-attached probe signal inserted into "
+        "group -1: refused by the name check first, else by the group id check); the payload size a message works with through a "
+        "1-bit probe at bit 8*SizeByte(), which must be refused",
         "integer arguments are arbitrary 64-bit ints (the generators include MaxInt64-k, MinInt64+k, 2^62, 2^31+-1); the "
         "model is over unbounded Z: after 594ad9e / 39797fd no layout code does arithmetic on an unchecked argument; values "
         "that have no refusing path (NewMessage sizeByte, type sizes, SetMinSize, enum indexes feeding sizes) are generated "
@@ -173,7 +179,10 @@ def run_mode(ctx, mode):
 RULES = {
     "c01": "cases = operation histories on real acmelib objects (1-3 messages of 0..8 (sometimes 9..12, -1) bytes, 3-8+ "
            "signals of sizes 1..64 incl. enum signals sharing 1-2 enums and multiplexers, every payload-affecting mutator "
-           "with valid / boundary / invalid arguments chosen by looking at the live layout); corpus of earlier findings, "
+           "with valid / boundary / invalid arguments chosen by looking at the live layout; about a third of the messages are "
+           "sent on a CAN 2.0A bus: UpdateSizeByte above 8 bytes is refused by the bus and followed by edits that would need the "
+           "refused space; signals are renamed); corpus of earlier findings, every growth of the first of 3-4 signals over all "
+           "arrangements of gaps {0,1,2,4} in a message / a group / a nested attached group (grow-gaps), "
            "seeded random histories (every fifth may leave the theorem hypotheses = known-finding zones), exhaustive "
            "histories of length <= 2 over a 127-op alphabet and <= 3 (4 thorough) over a 30-op alphabet on 1-/2-byte messages "
            "with signals of 1,2,3,5 bits and an enum signal. After every op: result and full snapshot compared with the "
@@ -181,7 +190,8 @@ RULES = {
            "one accepted size-changing edit (SetType/SetEnum/AddValue/UpdateIndex) of a signal that has a follower in its layout",
     "c07": "cases = operation histories centred on multiplexers (group counts {1,2,3,4,8,4096}, group sizes 1..56, nesting "
            "<= 3, detached and attached; fixed / single / multi-group / repeated / duplicated-id insertion, remove, "
-           "clear-group, clear-all, shift, size changes, plus the message-level ops); corpus, seeded random histories, "
+           "clear-group, clear-all, shift, size changes, renames of multiplexed signals, plus the message-level ops); corpus, "
+           "the grow-gaps family (see C01), seeded random histories, "
            "exhaustive histories of length <= 3 (4 thorough) on a 2x4-bit multiplexer with two signals. Result and snapshot "
            "compared with the Coq model after every op; predicates on the implementation. Non-trivial = distinct history "
            "with an accepted insertion into >= 2 groups and a later accepted remove / clear / shift in a multiplexer",
